@@ -132,6 +132,11 @@ func (c *puFn) assigned(nodes []ast.Node) []*types.Var {
 				if c.stdCall(x) == "encoding/binary.BigEndian.PutUint16" && len(x.Args) == 2 {
 					add(x.Args[0])
 				}
+				if c.grp.g.rich && c.builtinCall(x, "copy") != nil && len(x.Args) == 2 {
+					if se, ok := x.Args[0].(*ast.SliceExpr); ok {
+						add(se.X)
+					}
+				}
 				if f, _ := c.callee(x); f != nil && c.grp.g.rich && !f.t.extern {
 					fps := f.allParams()
 					for i, a := range x.Args {
@@ -592,6 +597,9 @@ func (c *puFn) simple(s ast.Stmt) ([]string, error) {
 			lines := c.takePre()
 			more, err := c.assignTo(call.Args[0], t)
 			return append(lines, more...), err
+		}
+		if c.grp.g.rich && c.builtinCall(call, "copy") != nil {
+			return c.copyStmt(call)
 		}
 		if lines, _, _, ok, err := c.callFx(call); ok || err != nil {
 			return lines, err
